@@ -963,6 +963,9 @@ func (in *Interp) callSSA(fr *frame, fn *ssa.Function, args []value, env []value
 		in.P.noteModel(fn)
 		return h(fr, fn, args)
 	}
+	if pkgPathOf(fn) == "reflect" && !reflectPureOK(fn) {
+		panic(unsupported("reflect entry point without model: " + fn.String() + " called at " + in.where()))
+	}
 	if fn.Blocks == nil {
 		panic(unsupported("external function without model: " + fn.String() + " called at " + in.where()))
 	}
@@ -1459,4 +1462,18 @@ func (in *Interp) guardAlloc(v value) {
 		in.lastPanicPos = in.curFrame.pos()
 		panic(goPanic{iface{t: in.P.runtimeErrType(), v: "excessive allocation: more than the engine limit of elements requested by a make()"}})
 	}
+}
+
+// reflectPureOK lists the functions of package reflect that may be interpreted from their own
+// SSA because they never look inside the real representation of Value / Type.
+func reflectPureOK(fn *ssa.Function) bool {
+	n := fn.String()
+	switch {
+	case strings.HasPrefix(n, "(reflect.Kind)"), strings.HasPrefix(n, "(reflect.StructTag)"),
+		strings.HasPrefix(n, "(reflect.StructField)"), strings.HasPrefix(n, "(*reflect.ValueError)"),
+		strings.HasPrefix(n, "(reflect.ChanDir)"), strings.HasPrefix(n, "reflect.TypeFor"),
+		strings.HasPrefix(n, "(reflect.Method)"), n == "reflect.init":
+		return true
+	}
+	return false
 }
